@@ -347,7 +347,7 @@ Section Tree2.
   Proof.
     set (u := make_url_key (q_url q)). unfold round_trip. fold u.
     destruct (is_request_method_understood q) eqn:Hund; cbn [negb]; cycle 1.
-    - unfold handle_unrecognized_method. apply SF_Origin; [reflexivity|]. intros [|r] _ Hrep; [constructor; exact I|].
+    - unfold handle_unrecognized_method. destruct (req_only_if_cached _); [constructor; cbn; apply G_nobody|]. apply SF_Origin; [reflexivity|]. intros [|r] _ Hrep; [constructor; exact I|].
       specialize (Hrep r eq_refl).
       assert (Hd : Safe G P u (leaf_ok G u) (Ret (OResp (with_hdr r (apply_status BYPASS (p_hdr r)))))) by (constructor; exact Hrep).
       destruct (_ && _); [|exact Hd]. unfold get_refs_clean. constructor. intros ans _. apply invalidate_cache_safe. exact Hd.
